@@ -57,7 +57,7 @@ TRACE_FILES = ("rtdc_dataset/feat_basin.py", "rtdc_dataset/core.py", "rtdc_datas
 
 def plan(tier):
     if tier == "quick":
-        return {"runs": 700, "budget_s": 45, "run_timeout_s": 90, "det_pairs": 3}
+        return {"runs": 1800, "budget_s": 45, "run_timeout_s": 90, "det_pairs": 3}
     return {"runs": 60000, "budget_s": 780, "run_timeout_s": 180, "det_pairs": 3}
 
 
